@@ -67,7 +67,7 @@ func (e *p2pEnv) client(trusted []peer.ID, chunk uint64, timeout time.Duration) 
 	if err != nil {
 		panic(err)
 	}
-	if err := ex.Start(context.Background()); err != nil {
+	if err := func() error { sc, end := startCtx(); defer end(); return ex.Start(sc) }(); err != nil {
 		panic(err)
 	}
 	// Start spawns peerTracker.track(), which adds every connected mocknet host asynchronously: wait for
